@@ -68,6 +68,7 @@ T_Silent ==
   /\ l <= Len(Trace) /\ TLCSet(2, l) /\ UNCHANGED l
   /\ \/ \E w \in waiting : ApiEnter(w)
      \/ CleanupEarly
+     \/ ApiLeave
      \/ EndWaitDone
 
 T_Skip == l <= Len(Trace) /\ E.ev # "config" /\ l' = EndIdx[E.tr] + 1 /\ ResetAll(FALSE, FALSE, TRUE)
